@@ -130,15 +130,19 @@ def gen_cases(prop, seed, tier):
         ss = stream_seeds(seed, prop, 100000 + k)
         cases.append({"run_index": 100000 + k, "scenario_seed": ss["scenario"], "tier": tier,
                       "force": {"n_steps": k, "kind": "gauss_box"}})
+    from . import c05_blackjax
+
+    for c in c05_blackjax.cases(prop, seed, tier, n_quick=10, n_thorough=160, base=300000):
+        cases.append({**c, "schedule_case": True})
     # interleave the three kinds (a wall-clock budget may cut the list short on a loaded machine: every kind should
     # still have been sampled in proportion)
     kinds = [[c for c in cases if c["run_index"] < 100000], [c for c in cases if 100000 <= c["run_index"] < 200000],
-             [c for c in cases if c["run_index"] >= 200000]]
+             [c for c in cases if 200000 <= c["run_index"] < 300000], [c for c in cases if c["run_index"] >= 300000]]
     total = len(cases)
-    out, pos = [], [0, 0, 0]
+    out, pos = [], [0, 0, 0, 0]
     for i in range(total):
         # pick the kind that is furthest behind its proportional share
-        j = max(range(3), key=lambda q: (len(kinds[q]) * (i + 1) / total - pos[q]) if pos[q] < len(kinds[q]) else -1e9)
+        j = max(range(4), key=lambda q: (len(kinds[q]) * (i + 1) / total - pos[q]) if pos[q] < len(kinds[q]) else -1e9)
         out.append(kinds[j][pos[j]])
         pos[j] += 1
     return out
@@ -147,6 +151,10 @@ def gen_cases(prop, seed, tier):
 def scenario_of(case):
     if "scenario" in case:
         return case["scenario"]
+    if case.get("kind") == "blackjax":
+        from . import c05_blackjax
+
+        return c05_blackjax.scenario(case)
     if case.get("kind") == "changed_resume":
         return {"sample_kwargs": {}, "target": {"kind": "n/a"}}
     return draw_case_scenario(case["scenario_seed"], case["tier"], case.get("force"))
@@ -156,6 +164,10 @@ def run_schedule_case(case, workdir, want):
     if case.get("kind") == "changed_resume":
         return run_changed_resume_case(case, workdir) if "c06" in want else {"violations": [], "evaluations": 1, "nontrivial_keys": [], "digest": "skip"}
     scn = scenario_of(case)
+    if case.get("kind") == "blackjax":
+        from . import c05_blackjax
+
+        return c05_blackjax.judge_schedule(case, workdir, scn, want)
     tier = case.get("tier", "quick")
     _skw = scn["sample_kwargs"]["sampler_kwargs"]
     ks = _skw.get("n_steps", _skw.get("nsteps", 1))
@@ -329,6 +341,9 @@ def run_changed_resume_case(case, workdir):
 
 def shrink_candidates(case):
     import copy
+
+    if case.get("kind") == "blackjax":
+        return []
 
     from .common import shrink_scenario_candidates
 
